@@ -71,7 +71,7 @@ def engine_observe(text, mode, txn, data_sources=None):
         'subcategory_rule': res.subcategory_rule.line_number if res.subcategory_rule else None,
         'all_matching': [r.line_number for r in res.all_matching_rules],
         'extra_fields': [[k, canon_val(v)] for k, v in res.extra_fields.items()],
-        'tag_sources': sorted([[tag, by_name[src['rule']]] for tag, src in res.tag_sources.items()]),
+        'tag_sources': sorted([[tag, src['rule']] for tag, src in res.tag_sources.items()]),
         'keys': [list(ME.calculate_specificity(r)) for r in eng.rules],
     }
     case = {'op': 'match', 'mode': mode,
@@ -81,7 +81,17 @@ def engine_observe(text, mode, txn, data_sources=None):
     return impl, case, eng
 
 
-def compare_engine(impl, model):
+def model_view(model, case):
+    """The model names the source rule of a tag by its line; MatchResult.tag_sources names it by rule name."""
+    if 'tag_sources' not in model:
+        return model
+    name_of = {r['line']: r['name'] for r in case['rules']}
+    return dict(model, tag_sources=sorted([[t, name_of.get(l, l)] for t, l in model['tag_sources']]))
+
+
+def compare_engine(impl, model, case=None):
+    if case is not None:
+        model = model_view(model, case)
     diffs = []
     for k, v in impl.items():
         if model.get(k) != v:
@@ -395,25 +405,177 @@ def oracle_c09(f, txn, r):
 
 
 def oracle_legacy(rows, txn):
-    """legacy CSV file through get_all_rules + normalize_merchant against the property's reading."""
+    """legacy CSV file through get_all_rules + normalize_merchant against the property's reading. The rule list the
+    property talks about is the FILE's rows (as generated), not whatever list the loader hands back."""
+    from tally.modifier_parser import parse_pattern_with_modifiers
     fails = []
     with Budget() as b:
         path = b.write('merchant_categories.csv', G.render_csv_rules(rows))
         (m, c, s, info), rules, _ = normalize_via_file(path, 'first_match', txn)
-    truths = [legacy_spec_truth(rule, txn) for rule in rules]
+    file_rules = []
+    for row in rows:
+        if G.render_csv_rules([row]).split('\n')[1].strip().startswith('#'):
+            continue                      # a line that starts with '#' is a comment of the CSV rule format
+        pat, merchant, category, subcategory = row[0], row[1], row[2], row[3]
+        parsed = parse_pattern_with_modifiers(pat)
+        file_rules.append((parsed.regex_pattern, merchant, category, subcategory, parsed, 'user', []))
+    truths = [legacy_spec_truth(rule, txn) for rule in file_rules]
     if any(t is None for t in truths):
         return fails
-    win = next((i for i, rule in enumerate(rules) if truths[i] and rule[2]), None)
+    win = next((i for i, rule in enumerate(file_rules) if truths[i] and rule[2]), None)
     from tally import merchant_utils as MU
     if win is not None:
-        want = (rules[win][1], rules[win][2], rules[win][3])
+        want = (file_rules[win][1], file_rules[win][2], file_rules[win][3])
     else:
         want = (MU.extract_merchant_name(txn['description']), 'Unknown', 'Unknown')
     if (m, c, s) != want:
         fails.append({'class': 'legacy-first-match', 'csv_rules': [list(x) for x in rows], 'txn': jtxn(txn),
                       'observed': (m, c, s), 'required': want,
-                      'pattern_of_required_rule': rules[win][0] if win is not None else None})
+                      'pattern_of_required_rule': file_rules[win][0] if win is not None else None})
     return fails
+
+
+def txn_variants(r, txn, k=8):
+    """Near-duplicates of one statement line: the same transaction with ONE attribute changed (amount, date,
+    a custom field, source, location, description). A classification that is remembered under a key that
+    leaves one of them out shows up as a difference between a long-lived engine and a fresh one."""
+    import datetime
+    a = txn['amount'] or 0
+    out = []
+    for na in r.sample([0.0, 50.0, 99.99, 100.0, 150.0, 250.0, 600.0, -a, a + 0.01, a * 2 + 1, -300.0], 3):
+        out.append(dict(txn, amount=na))
+    d = txn.get('date')
+    if d:
+        for nd in r.sample([d + datetime.timedelta(days=1), d + datetime.timedelta(days=31), d - datetime.timedelta(days=3),
+                            d + datetime.timedelta(days=5), datetime.date(d.year + 1, d.month, d.day),
+                            datetime.date(d.year, (d.month % 12) + 1, d.day)], 2):
+            out.append(dict(txn, date=nd))
+        out.append({k2: v for k2, v in txn.items() if k2 != 'date'})
+    else:
+        out.append(dict(txn, date=datetime.date(2024, r.choice([1, 6, 12]), r.choice([1, 6, 15]))))
+    f = txn.get('field')
+    if f:
+        name = r.choice(sorted(f))
+        out.append(dict(txn, field=dict(f, **{name: r.choice([v for v in G.FIELD_VALUES if v != f[name]])})))
+        out.append(dict(txn, field={k2: v for k2, v in f.items() if k2 != name} or None))
+        missing = [n for n in G.FIELD_NAMES if n not in f]
+        if missing:
+            out.append(dict(txn, field=dict(f, **{missing[0]: r.choice(G.FIELD_VALUES)})))
+    else:
+        out.append(dict(txn, field={r.choice(G.FIELD_NAMES): r.choice(G.FIELD_VALUES)}))
+    out.append(dict(txn, source=r.choice([x for x in G.SOURCES if x != txn.get('source')])))
+    out.append(dict(txn, location=r.choice([x for x in (None, 'WA', 'CA') if x != txn.get('location')])))
+    out.append(dict(txn, description=G.gen_txn(r)['description']))
+    r.shuffle(out)
+    return out[:k]
+
+
+def discriminating_rule(r, txn, variant, idx=0):
+    """A rule whose condition is true for `txn` and not for its near-duplicate `variant` (or the other way round),
+    written on the attribute in which they differ — directly, through a top-level variable, or through a let binding.
+    Returns (rule dict, {variable: expr}) or None."""
+    a, b = txn, variant
+    if r.random() < 0.3:
+        a, b = b, a
+    cond = None
+    if a['amount'] != b['amount']:
+        x, y = a['amount'] or 0, b['amount'] or 0
+        mid = (x + y) / 2
+        cond = r.choice([f'amount == {x!r}', f'amount > {mid!r}' if x > y else f'amount < {mid!r}'])
+    elif a.get('date') != b.get('date'):
+        da, db = a.get('date'), b.get('date')
+        if da is None:
+            cond = 'year == 0'
+        else:
+            opts = [f'date == "{da.isoformat()}"']
+            if db is None or da.month != db.month:
+                opts.append(f'month == {da.month}')
+            if db is None or da.weekday() != db.weekday():
+                opts.append(f'weekday == {da.weekday()}')
+            if db is None or da.year != db.year:
+                opts.append(f'year == {da.year}')
+            if db is None or da.day != db.day:
+                opts.append(f'day == {da.day}')
+            cond = r.choice(opts)
+    elif (a.get('field') or {}) != (b.get('field') or {}):
+        fa, fb = a.get('field') or {}, b.get('field') or {}
+        name = next((n for n in sorted(fa) if fa.get(n) != fb.get(n)), None)
+        if name is None:
+            return None                    # b has an extra column only: nothing true of a and false of b to write
+        cond = f'field.{name} == "{fa[name]}"'
+    elif a.get('source') != b.get('source'):
+        cond = f'source == "{a.get("source") or ""}"'
+    elif a['description'] != b['description']:
+        wa = [w for w in a['description'].upper().split() if w not in b['description'].upper().split() and '"' not in w]
+        if not wa:
+            return None
+        cond = f'contains("{r.choice(wa)}")'
+    if cond is None:
+        return None
+    variables = {}
+    rule = {'name': f'Disc{idx}', 'match': cond, 'category': f'Disc{idx}', 'subcategory': 'D', 'tags': [f'disc{idx}']}
+    k = r.random()
+    words = txn['description'].upper().split()
+    if k < 0.3:
+        variables[f'v_disc{idx}'] = cond
+        rule['match'] = f'contains("{words[0]}") and v_disc{idx}' if words and '"' not in words[0] and r.random() < 0.6 else f'v_disc{idx}'
+    elif k < 0.45:
+        rule['lets'] = [('hit', cond)]
+        rule['match'] = 'hit'
+    elif k < 0.6 and words and '"' not in words[0]:
+        rule['match'] = f'contains("{words[0]}") and {cond}'
+    return rule, variables
+
+
+def with_discriminators(f, txn, variants, r):
+    """The rules file plus, near the top, rules that tell the base transaction from some of its near-duplicates."""
+    g = dict(f, variables=dict(f['variables']), rules=list(f['rules']))
+    picks = r.sample(range(len(variants)), min(len(variants), r.choice([1, 2, 3])))
+    for j, i in enumerate(picks):
+        dr = discriminating_rule(r, txn, variants[i], idx=j)
+        if dr is None:
+            continue
+        rule, variables = dr
+        g['variables'].update(variables)
+        g['rules'].insert(r.randint(0, min(1, len(g['rules']))), rule)
+    return g
+
+
+def result_summary(res):
+    return {'merchant': res.merchant, 'category': res.category, 'subcategory': res.subcategory,
+            'tags': sorted(re.sub(r' at 0x[0-9a-f]+', '', x) for x in res.tags),
+            'all_matching': [x.line_number for x in res.all_matching_rules],
+            'extra_fields': [[k, canon_val(v)] for k, v in res.extra_fields.items()]}
+
+
+def oracle_batch(f, txn, mode, r, data_sources=None):
+    """One long-lived engine classifies a run of near-duplicate transactions (as `tally up` does for a statement);
+    every answer must equal the answer of an engine freshly parsed from the same text for that transaction alone."""
+    from tally import merchant_engine as ME
+    variants = txn_variants(r, txn)
+    f = with_discriminators(f, txn, variants, r)
+    text = G.render_rules(f)
+    eng = ME.parse_merchants(text, mode)
+    seq = [txn] + variants + [txn]
+    if r.random() < 0.5:
+        r.shuffle(seq)
+    fails = []
+    for i, tv in enumerate(seq):
+        t = txn_for_engine(tv)
+        got = result_summary(eng.match(copy.deepcopy(t), data_sources=data_sources))
+        want = result_summary(ME.parse_merchants(text, mode).match(copy.deepcopy(t), data_sources=data_sources))
+        if got != want:
+            differs = [k for k in got if got[k] != want[k]]
+            fails.append({'class': 'depends-on-earlier-transactions', 'differs_in': differs, 'rules': text, 'mode': mode,
+                          'sequence': [jtxn(x) for x in seq[:i + 1]], 'txn': jtxn(tv), 'position': i, 'file': f,
+                          'observed (same engine, after the earlier transactions)': got, 'required (fresh engine)': want})
+            break
+    return fails
+
+
+BATCH_RELEVANT = {'C01': ('merchant', 'category', 'subcategory', 'all_matching', 'extra_fields'),
+                  'C02': ('tags', 'merchant', 'category', 'subcategory'),
+                  'C09': ('merchant', 'category', 'subcategory')}
 
 
 def jtxn(txn):
@@ -463,10 +625,13 @@ def run(ctx, prop):
     n = {'C01': 700, 'C02': 500, 'C09': 600}[prop] if ctx.quick else 30000
     items = []       # (f, txn, mode)
     corpus_fail = []
+    replay_seq = None
     if ctx.replay:
         rp = json.loads(common.read(ctx.replay))
         ce = rp.get('counterexample', {})
-        if 'file' in ce:
+        if 'sequence' in ce and 'file' in ce:
+            replay_seq = (ce['file'], [untxn(x) for x in ce['sequence']], ce.get('mode', 'first_match'))
+        elif 'file' in ce:
             items.append((ce['file'], untxn(ce['txn']), ce.get('mode', 'first_match')))
     else:
         corpus = json.loads(common.read(os.path.join(common.VERIF, 'harness', 'corpus', f'{prop}.json')))
@@ -479,7 +644,7 @@ def run(ctx, prop):
                     corpus_fail.append(pf)
         for i in range(n):
             txn = G.gen_txn(r)
-            f = G.gen_rules_file(r, txn, force_ties=(prop == 'C09' and i % 2 == 0))
+            f = G.gen_rules_file(r, txn, force_ties=(prop == 'C09' and i % 2 == 0), dup_names=(i % 3 == 0))
             f['transforms'] = f['transforms'] if prop == 'C01' else []
             mode = 'most_specific' if prop == 'C09' else ('first_match' if prop == 'C01' else r.choice(['first_match', 'most_specific']))
             items.append((f, txn, mode))
@@ -487,6 +652,21 @@ def run(ctx, prop):
     full_cases = []
     raised = 0
     oracle = ORACLES[prop]
+    nbatch = 0
+    if replay_seq:
+        from tally import merchant_engine as ME
+        f, seq, mode = replay_seq
+        text = G.render_rules(f)
+        eng = ME.parse_merchants(text, mode)
+        for i, tv in enumerate(seq):
+            t = txn_for_engine(tv)
+            got = result_summary(eng.match(copy.deepcopy(t)))
+            want = result_summary(ME.parse_merchants(text, mode).match(copy.deepcopy(t)))
+            if any(got[k] != want[k] for k in BATCH_RELEVANT[prop]):
+                prop_fail_replay = {'class': 'depends-on-earlier-transactions', 'file': f, 'mode': mode, 'sequence': [jtxn(x) for x in seq[:i + 1]],
+                                    'observed': got, 'required': want}
+                prop_fail.append(prop_fail_replay)
+                break
     for f, txn, mode in items:
         text = G.render_rules(f)
         try:
@@ -505,6 +685,11 @@ def run(ctx, prop):
             for pf in oracle(dict(f, transforms=[]), t2, r):
                 pf['file'] = f; pf['mode'] = pf.get('mode', mode)
                 prop_fail.append(pf)
+            if not ctx.replay:
+                nbatch += 1
+                for pf in oracle_batch(dict(f, transforms=[]), t2, mode, r):
+                    if any(k in BATCH_RELEVANT[prop] for k in pf['differs_in']):
+                        prop_fail.append(pf)
         except Exception as e:
             if type(e).__name__ in ('TypeError', 'AttributeError', 'StopIteration', 'error', 'ValueError'):
                 raised += 1       # D8 territory (C08), not this property
@@ -555,7 +740,7 @@ def run(ctx, prop):
         d = common.Driver()
         model = d.batch(cases)
         for i, (mo, im) in enumerate(zip(model, impls)):
-            diffs = compare_engine(im, mo)
+            diffs = compare_engine(im, mo, cases[i])
             if diffs:
                 f, txn, mode = metas[i]
                 corr_fail.append({'stream': 'engine', 'differs_in': diffs, 'file': f, 'txn': jtxn(txn), 'mode': mode,
@@ -569,6 +754,7 @@ def run(ctx, prop):
                 continue
             full_compared += 1
             im2 = {k: v for k, v in im.items() if k != 'keys'}
+            mo = model_view(mo, cases[i])
             diffs = [k for k, v in im2.items() if mo.get(k) != v]
             if diffs:
                 f, txn, mode = metas[i]
@@ -611,7 +797,9 @@ def run(ctx, prop):
                        'fields, source; variables, lets, field directives, priorities, dynamic tags, transforms) × transactions; per-rule '
                        'evaluation from the implementation\'s own primitives, list algorithm from the Lean model, compared with '
                        'MerchantEngine.match (all MatchResult fields + specificity keys), normalize_merchant, apply_transforms and the legacy CSV '
-                       'loop; the implementation-only oracle applies the property\'s metamorphic relations. Non-trivial: '
+                       'loop; the implementation-only oracle applies the property\'s metamorphic relations; every file also classifies a run of near-duplicate '
+                       'transactions (one attribute changed at a time) through ONE engine, each answer compared with a freshly parsed engine; a third of the files '
+                       'repeat rule names. Non-trivial: '
                        + {'C01': '≥ 2 rules match and the winner is not the first rule of the file',
                           'C02': '≥ 2 matching rules contribute tags and a tag-only rule matches',
                           'C09': '≥ 2 matching categorising rules compete'}[prop])
@@ -621,6 +809,8 @@ def run(ctx, prop):
         k = sum(1 for e in c['evs'] if e['hit'])
         hist[k] = hist.get(k, 0) + 1
     ctx.notes['matching_rules_histogram'] = hist
+    ctx.notes['runs_of_near_duplicate_transactions_through_one_engine (each answer vs a fresh engine)'] = nbatch
+    ctx.notes['files_with_repeated_rule_names'] = sum(1 for f, _, _ in metas if len({x['name'] for x in f['rules']}) < len(f['rules']))
     for c, (f, txn, mode) in list(zip(cases, metas))[:3]:
         ctx.sample({'rules': G.render_rules(f), 'txn': jtxn(txn), 'mode': mode})
 
@@ -631,12 +821,18 @@ def run(ctx, prop):
         out = []
         for i in range(4000):
             txn = G.gen_txn(r)
-            f = G.gen_rules_file(r, txn, n=r.choice([2, 3, 4]), force_ties=(prop == 'C09'))
+            f = G.gen_rules_file(r, txn, n=r.choice([2, 3, 4]), force_ties=(prop == 'C09'), dup_names=(i % 2 == 0))
             f['transforms'] = []
             try:
                 for pf in oracle(f, txn_for_engine(txn), r):
                     pf['file'] = f
                     out.append(pf)
+                mode_b = 'most_specific' if prop == 'C09' else 'first_match'
+                for pf in oracle_batch(f, txn_for_engine(txn), mode_b, r):
+                    if any(k in BATCH_RELEVANT[prop] for k in pf['differs_in']):
+                        out.append(pf)
+                if prop == 'C01' and i % 4 == 0:
+                    out.extend(oracle_legacy(G.gen_csv_rules(r, txn), txn))
             except Exception:
                 continue
             if out:
